@@ -146,6 +146,14 @@ func fragNeg(g *Gen, n int, o *Out) {
 		if p, isNeg := map[string]string{"ne": "eq", "notin": "in", "notempty": "empty", "notmatches": "matches"}[m.Op]; isNeg {
 			pos.Op = p
 		}
+		if pos.Op == "matches" && g.r.Intn(3) == 0 {
+			pos.Raw = []string{"(", "[z-a]", "a{2,1}", "eu-(1", "\\"}[g.r.Intn(5)]
+			if g.r.Intn(2) == 0 && len(pos.Path) > 0 {
+				// … on an absent key
+				datum = map[string]interface{}{"Labels": map[string]interface{}{"a": "b"}, "L": map[string]string{}}
+				pos.Path = [][]string{{"Labels", "zone"}, {"L", "z"}}[g.r.Intn(2)]
+			}
+		}
 		neg := pos
 		neg.Op = negOf[pos.Op]
 		rp, tp, ok1 := evalG(g, o, opts, pos, datum)
@@ -164,6 +172,12 @@ func fragNeg(g *Gen, n int, o *Out) {
 		}
 		if pos.Op == "in" {
 			a, b := pos, pos
+			if g.r.Intn(3) == 0 {
+				// literal spelled in double quotes whatever its shape (also JSON-pointer shaped ones)
+				a.Raw = []string{"/etc", "/a", "/usr/bin", "/1", "a", "x y", ""}[g.r.Intn(7)]
+				b.Raw = a.Raw
+				a.ForceDouble, b.ForceDouble = true, true
+			}
 			a.Contains, b.Contains = true, false
 			ra, _, oka := evalG(g, o, opts, a, datum)
 			rb, _, okb := evalG(g, o, opts, b, datum)
@@ -181,7 +195,9 @@ var absentTable = map[string]string{"eq": "F", "ne": "T", "in": "F", "notin": "T
 func fragAbsent(g *Gen, n int, o *Out) {
 	for i := 0; i < n; i++ {
 		doc := g.randJSONDoc(3, g.r.Intn(2) == 0)
-		root := map[string]interface{}{"top": doc, "m": map[string]interface{}{"a": 1.0}, "s": map[string]string{"k": "v"}, "n": g.randJSONDoc(2, false)}
+		root := map[string]interface{}{"top": doc, "m": map[string]interface{}{"a": 1.0}, "s": map[string]string{"k": "v"}, "n": g.randJSONDoc(2, false),
+			"t":  Tagged{Meta: map[string]string{"v": "1"}, Labels: map[string]interface{}{"a": 1}, W: Wrap{V: map[string]interface{}{"in": 1}}, Plain: map[string]int{"p": 1}},
+			"pt": &Tagged{Meta: map[string]string{}, Labels: map[string]interface{}{"l": map[string]interface{}{"deep": true}}}}
 		var paths []PathInfo
 		enumPaths(reflect.ValueOf(root), "bexpr", nil, 5, &paths)
 		// candidates: map-valued paths (the parent of the absent key), length >= 1
@@ -198,7 +214,7 @@ func fragAbsent(g *Gen, n int, o *Out) {
 		key := []string{"zz", "nope", "absent", "Z"}[g.r.Intn(4)]
 		full := append(append([]string{}, par.Parts...), key)
 		for _, op := range matchOps {
-			m := GMatch{Path: full, Op: op, Raw: []string{"1", "x", "", "a.*"}[g.r.Intn(4)], Contains: g.r.Intn(2) == 0}
+			m := GMatch{Path: full, Op: op, Raw: []string{"1", "x", "", "a.*", "(", "[z-a]", "eu-(1"}[g.r.Intn(7)], Contains: g.r.Intn(2) == 0}
 			r, text, ok := evalG(g, o, nil, m, root)
 			if ok && r != absentTable[op] {
 				o.finding(Finding{Property: "C05", Kind: "failing-input", What: fmt.Sprintf("absent map key: %s gives %s, documented %s", op, r, absentTable[op]), Request: lastReq(o), Detail: text})
@@ -215,6 +231,14 @@ func fragAbsent(g *Gen, n int, o *Out) {
 				if ok3 && ru != rd && ru != "P" && rd != "P" {
 					o.finding(Finding{Property: "C05", Kind: "failing-input", What: fmt.Sprintf("unknown value %v: %s gives %s, but %s when the key holds that value", u, op, ru, rd), Request: lastReq(o), Detail: text})
 				}
+			}
+		}
+		// a map that is only reachable through the value-transformation hook
+		for _, op := range matchOps {
+			hm := GMatch{Path: []string{"t", "W", "zz"}, Op: op, Raw: "1", Contains: g.r.Intn(2) == 0}
+			r, text, ok := evalG(g, o, []OptSpec{{Kind: "hook", Hook: "unwrap"}}, hm, root)
+			if ok && r != absentTable[op] {
+				o.finding(Finding{Property: "C05", Kind: "failing-input", What: fmt.Sprintf("absent key of a hook-unwrapped map: %s gives %s, documented %s", op, r, absentTable[op]), Request: lastReq(o), Detail: text})
 			}
 		}
 		// `all` / `any` over the absent key
@@ -465,6 +489,27 @@ func allPathsBoth(e GExpr) bool {
 }
 
 func fragSpelling(g *Gen, n int, o *Out) {
+	// two different paths whose dotted renderings coincide, used in ONE expression
+	for i := 0; i < n/10+1; i++ {
+		r1, r2 := []string{"r1", "a", "1"}[g.r.Intn(3)], []string{"r2", "b", "2"}[g.r.Intn(3)]
+		datum := map[string]interface{}{"meta": map[string]interface{}{"rack.id": r1, "rack": map[string]interface{}{"id": r2}}, "dc.name": r1, "dc": map[string]interface{}{"name": r2}}
+		pairs := [][2][]string{{{"meta", "rack.id"}, {"meta", "rack", "id"}}, {{"dc.name"}, {"dc", "name"}}}
+		pr := pairs[g.r.Intn(2)]
+		mk := func(style int) GExpr {
+			a := GMatch{Path: pr[0], Op: "eq", Raw: r1, SelStyle: style, LitStyle: 2}
+			b := GMatch{Path: pr[1], Op: "eq", Raw: r2, SelStyle: style, LitStyle: 2}
+			if g.r.Intn(2) == 0 {
+				return GAnd{a, b}
+			}
+			return GAnd{b, a}
+		}
+		ra, ta, oka := evalG(g, o, nil, mk(1), datum)
+		rb, tb, okb := evalG(g, o, nil, mk(2), datum)
+		if oka && okb && (ra != rb || ra != "T") {
+			o.finding(Finding{Property: "C07", Kind: "failing-input", What: fmt.Sprintf("bracket/dotted spelling gives %s, pointer spelling %s (both must be T)", ra, rb), Request: lastReq(o), Detail: fmt.Sprintf("%q vs %q", ta, tb)})
+		}
+		o.count("collision-pair")
+	}
 	for i := 0; i < n; i++ {
 		datum, root, paths := datumAndPaths(g, "bexpr")
 		e := g.genExpr(root, "bexpr", paths, 2, false)
@@ -560,6 +605,7 @@ func (g *Gen) perturbHidden(v reflect.Value, tag string, changed *bool) reflect.
 }
 
 func fragHidden(g *Gen, n int, o *Out) {
+	optionSliceNotRetained(o)
 	tags := []string{"bexpr", "json"}
 	for i := 0; i < n; i++ {
 		tag := tags[g.r.Intn(2)]
@@ -570,6 +616,19 @@ func fragHidden(g *Gen, n int, o *Out) {
 		types := []reflect.Type{reflect.TypeOf(HiddenHolder{}), reflect.TypeOf(Outer{}), reflect.TypeOf([]HiddenHolder{}), reflect.TypeOf(map[string]*HiddenHolder{}), reflect.TypeOf(Inner{}), reflect.TypeOf([]*Inner{})}
 		t := types[g.r.Intn(len(types))]
 		v1 := g.randValue(t, 4)
+		if g.r.Intn(4) == 0 {
+			// all visible fields zero: only hidden content distinguishes the two data
+			v1 = reflect.New(t).Elem()
+			if t.Kind() == reflect.Slice {
+				v1 = reflect.MakeSlice(t, 2, 2)
+			}
+			if t.Kind() == reflect.Map {
+				v1 = reflect.MakeMap(t)
+				v1.SetMapIndex(reflect.ValueOf("k"), reflect.New(t.Elem().Elem()))
+			}
+			ch0 := false
+			v1 = g.perturbHidden(v1, tag, &ch0)
+		}
 		changed := false
 		v2 := g.perturbHidden(v1, tag, &changed)
 		if !changed {
@@ -590,6 +649,21 @@ func fragHidden(g *Gen, n int, o *Out) {
 		}
 		withHidden = append(withHidden, PathInfo{Parts: []string{hiddenNames[g.r.Intn(len(hiddenNames))]}})
 		e := g.genExpr(v1, tag, withHidden, 2, false)
+		if g.r.Intn(3) == 0 {
+			// an operator applied to an enclosing struct as a whole
+			var structs []PathInfo
+			for _, p := range paths {
+				if sv := unwrapIP(p.Val); sv.IsValid() && sv.Kind() == reflect.Struct {
+					structs = append(structs, p)
+				}
+			}
+			if len(structs) > 0 {
+				p := structs[g.r.Intn(len(structs))]
+				e = GMatch{Path: p.Parts, Op: matchOps[g.r.Intn(len(matchOps))], Raw: []string{"", "1", "x", ".*"}[g.r.Intn(4)], Contains: g.r.Intn(2) == 0}
+			} else if v1.Kind() == reflect.Slice || v1.Kind() == reflect.Map {
+				e = GColl{Op: "any", Path: []string{"Ins"}, Mode: "default", Def: "x", Inner: GMatch{Path: []string{"x"}, Op: "empty"}}
+			}
+		}
 		text, _, ok := g.renderTop(e)
 		if !ok {
 			continue
@@ -856,3 +930,4 @@ func fragScalarEq(g *Gen, n int, o *Out) {
 		}
 	}
 }
+
